@@ -224,9 +224,11 @@ func (e *Enc) Encode() {
 		}
 		env := e.entryEnv()
 		n := len(e.unsupported)
+		na := len(e.asserts)
 		t := e.evalBool(ax.Expr, env)
 		if len(e.unsupported) > n {
 			e.unsupported = e.unsupported[:n]
+			e.asserts = e.asserts[:na]
 			continue
 		}
 		e.assert(t)
@@ -1200,6 +1202,18 @@ func (e *Enc) unop(x *ssa.UnOp) {
 		e.assert(e.refOld(r, e.cur))
 		if srt := e.sortOf(x.Type()); srt == "Ref" || srt == "Slice" {
 			e.loadedRefFacts(e.cur, e.keyForAddr(x.X, x.Type()), srt, v.T)
+			// a value loaded from a private local cell into which only fresh values are ever stored (syntactic
+			// analysis) points to memory allocated by this function
+			if _, isAlloc := x.X.(*ssa.Alloc); isAlloc {
+				if ri := classifyRoot(x, e.fn, map[ssa.Value]bool{}); ri.kind == rootFresh {
+					a0 := e.allocCounter(e.entryHeap)
+					if srt == "Slice" {
+						e.assert(or(app("=", app("sarr", r.T), "nil"), app(">", e.rootOf(app("sarr", r.T)), a0)))
+					} else {
+						e.assert(or(app("=", r.T, "nil"), app(">", e.rootOf(r.T), a0)))
+					}
+				}
+			}
 		}
 		if fa, ok := x.X.(*ssa.FieldAddr); ok && len(e.cs.FieldAssume) > 0 {
 			if st, name := structOf(fa.X.Type()); st != nil {
